@@ -19,6 +19,7 @@ import Influx.Lemmas.TsmWriter
 import Influx.Lemmas.TsmSpecTs
 import Influx.Lemmas.TsmReader
 import Influx.Lemmas.TsmSpecFileTrace
+import Influx.Lemmas.TsmSpecCover
 
 namespace Influx.Props.C08
 open Influx.Tsm Influx.Spec.C08
@@ -220,6 +221,42 @@ theorem C08_holdsOn_file_partial (crc : Bytes → Nat) (kbs : List (Key × List 
     (qs : List Op) (hq : ∀ q ∈ qs, isLookup q = true) :
     holdsOn (traceOf crc (fileOps kbs qs)) = true := file_trace crc kbs h qs hq
 
+/-- a small file in the domain: two keys (one a prefix of the other), three blocks, negative times -/
+def exKbs : List (Key × List Blk) :=
+  [([97], [⟨1, 2, [1, 170]⟩, ⟨3, 9, [2]⟩]), ([97, 0], [⟨-5, 0, [0, 1, 2]⟩])]
+
+theorem exDOM : DOM exKbs := by
+  refine ⟨⟨?_, ?_, ?_, ?_⟩, ⟨?_, ?_, ?_⟩, ?_, ?_⟩
+  · simp [exKbs, kcmp]
+  · intro kb hkb; simp [exKbs] at hkb; rcases hkb with rfl | rfl <;> simp
+  · intro kb hkb; simp [exKbs] at hkb
+    rcases hkb with rfl | rfl
+    · refine ⟨by simp, by simp, ?_⟩
+      intro b hb; simp at hb
+      rcases hb with rfl | rfl <;> exact ⟨by simp, by intro b0 h; simp at h; omega, by simp⟩
+    · refine ⟨by simp, by simp, ?_⟩
+      intro b hb; simp at hb; subst hb
+      exact ⟨by simp, by intro b0 h; simp at h; omega, by simp⟩
+  · intro kb hkb; simp [exKbs] at hkb; rcases hkb with rfl | rfl <;> simp
+  · simp [exKbs]
+  · intro kb hkb; simp [exKbs] at hkb
+    rcases hkb with rfl | rfl
+    · refine ⟨by simp, by simp, by simp, ?_⟩
+      intro b hb; simp at hb
+      rcases hb with rfl | rfl <;> (unfold WFBlk inInt64 minInt64 maxInt64; simp)
+    · refine ⟨by simp, by simp, by simp, ?_⟩
+      intro b hb; simp at hb; subst hb
+      unfold WFBlk inInt64 minInt64 maxInt64; simp
+  · simp [exKbs, totalBlocks, blocksLen]
+  · intro kb hkb b hb; simp [exKbs] at hkb
+    rcases hkb with rfl | rfl <;> simp at hb
+    · rcases hb with rfl | rfl <;> simp
+    · subst hb; simp
+  · intro kb hkb; simp [exKbs] at hkb; rcases hkb with rfl | rfl <;> simp
+
+example : holdsOn (traceOf (fun _ => 7) (fileOps exKbs [.keycount, .seek [97, 0], .seek [98], .entries [97], .containsvalue [97] 4, .keyat 1, .keyrange])) = true :=
+  C08_holdsOn_file_partial _ exKbs exDOM _ (by decide)
+
 -- the hypothesis is met by non-trivial sequences (and the checker really looks at them)
 example : holdsOn (traceOf (fun _ => 0)
     [.tsNew, .tsAddRange [[97], [98]] 1 5, .tsFlush, .tsAdd [[99]], .tsFlush, .tsWalk, .tsWalk, .tsWalkFresh]) = true := by
@@ -227,6 +264,11 @@ example : holdsOn (traceOf (fun _ => 0)
 example : holdsOn [(.tsNew, .ok), (.tsAddRange [[97]] 1 5, .ok), (.tsFlush, .ok), (.tsWalkFresh, .tombs [])] = false := by
   decide
 
+
+/-- the checker's finite "may this key be missing" test means what it should: every time of
+    the key's span is covered by a request -/
+theorem C08_spec_fullyCovered (rs : List Req) (lo hi : Int) (hle : lo ≤ hi) :
+    fullyCovered rs lo hi = true ↔ ∀ t, lo ≤ t → t ≤ hi → covers rs t = true := fullyCovered_iff rs lo hi hle
 
 /-- The full statement (every trace of the model satisfies the statement checker) is FALSE
     of the code: blocks written under the empty key are not a key of the file
